@@ -12,8 +12,11 @@ open FluentModel FluentModel.Syntax FluentModel.Syntax.Ser FluentProofs.Parser
 
 def rtAttr (a : Attribute Bytes) : Bool := validIdent a.id && rtPattern a.value
 
-/-- a comment line: no line break inside -/
-def commentLineOK (l : Bytes) : Bool := l.all fun b => b != 10 && b != 13
+/-- a comment line: no line feed inside (a lone `\r` is allowed) -/
+def commentLineOK (l : Bytes) : Bool := l.all fun b => b != 10
+
+/-- `TextWriter::newline` doubles a trailing `\r` of the line -/
+def crDbl (l : Bytes) : Bytes := if endsCr l then [13] else []
 
 def rtComment (c : List Bytes) : Bool := !c.isEmpty && c.all commentLineOK
 
@@ -37,7 +40,7 @@ def rtEntry : Entry Bytes → Bool
 /-- text of a comment block with prefix `pre` (`#`, `##`, `###`) -/
 def commentText (pre : Bytes) : List Bytes → Bytes
   | [] => []
-  | l :: ls => pre ++ (if isBlankLine l then [] else 32 :: l) ++ 10 :: commentText pre ls
+  | l :: ls => pre ++ (if isBlankLine l then [] else 32 :: (l ++ crDbl l)) ++ 10 :: commentText pre ls
 
 def attrText (a : Attribute Bytes) : Bytes := 10 :: (spacesL 4 ++ 46 :: (a.id ++ [32, 61] ++ patText 1 a.value))
 
@@ -82,12 +85,23 @@ theorem ws0_writeTidy {w : Writer} {nl : Bool} (hw : WS w 0 nl) (item : Bytes) (
   have := ws0_writeLiteral hw item h1 h2
   rwa [h3] at this
 
-theorem commentLine_tidy {l : Bytes} (hl : commentLineOK l = true) (hb : isBlankLine l = false) : tidy l = true := by
-  have hne : l ≠ [] := by intro h0; subst h0; simp [isBlankLine] at hb
-  apply tidy_of_all l hne
-  intro b hbm
+theorem commentLine_ne {l : Bytes} (hb : isBlankLine l = false) : l ≠ [] := by
+  intro h0; subst h0; simp [isBlankLine] at hb
+
+theorem commentLine_head {l : Bytes} (hl : commentLineOK l = true) : l.head? ≠ some 10 := by
+  intro h
   simp only [commentLineOK, List.all_eq_true] at hl
-  simpa using hl b hbm
+  have := hl 10 (List.mem_of_mem_head? h)
+  simp at this
+
+/-- `newline` whatever the writer ends with -/
+theorem wsc_newline {w : Writer} {L : Nat} (hw : WSc w L false) :
+    w.newline.buffer = w.buffer ++ ((if endsWith w 13 then [13] else []) ++ [(10 : UInt8)]).toArray ∧
+      WS w.newline L true := by
+  have hb : w.newline.buffer = w.buffer ++ ((if endsWith w 13 then [13] else []) ++ [(10 : UInt8)]).toArray := by
+    rw [newline_buffer]; split <;> simp
+  refine ⟨hb, by simp [hw.1], ?_, by simp⟩
+  simp [Writer.newline, endsWith]
 
 theorem serComment_text (pre : Bytes) (hp : tidy pre = true) (c : List Bytes) (hc : ∀ l ∈ c, commentLineOK l = true) :
     ∀ (w : Writer) (nl : Bool), WS w 0 nl → c ≠ [] →
@@ -101,28 +115,39 @@ theorem serComment_text (pre : Bytes) (hp : tidy pre = true) (c : List Bytes) (h
     -- the line
     have hline : ∃ w2, (if (!isBlankLine l) = true then ((w.writeLiteral pre).writeLiteral (lit " ")).writeLiteral l
           else w.writeLiteral pre) = w2 ∧
-        w2.buffer = w.buffer ++ (pre ++ (if isBlankLine l then [] else 32 :: l)).toArray ∧ WS w2 0 false := by
+        w2.newline.buffer = w.buffer ++ (pre ++ (if isBlankLine l then [] else 32 :: (l ++ crDbl l)) ++ [10]).toArray ∧
+        WS w2.newline 0 true := by
       refine ⟨_, rfl, ?_⟩
       cases hbl : isBlankLine l
       · simp only [Bool.not_false, if_true, lit_sp]
         obtain ⟨hb2, hw2⟩ := ws0_writeTidy hw1 [32] (by decide)
-        obtain ⟨hb3, hw3⟩ := ws0_writeTidy hw2 l (commentLine_tidy hl hbl)
-        refine ⟨?_, hw3⟩
-        rw [hb3, hb2, hb1]; apply Array.ext'; simp
+        obtain ⟨hb3, hw3, h13⟩ := wsc_writeLiteral hw2.toC l (commentLine_ne hbl)
+        have hh : (l.head? == some 10) = false := by simpa using commentLine_head hl
+        rw [hh, Bool.and_false] at hb3
+        have hnl : endsNl l = false := by
+          simp only [endsNl, beq_eq_false_iff_ne, ne_eq]
+          intro h
+          simp only [commentLineOK, List.all_eq_true] at hl
+          have := hl 10 (List.mem_of_getLast? h)
+          simp at this
+        rw [hnl] at hw3
+        obtain ⟨hb4, hw4⟩ := wsc_newline hw3
+        refine ⟨?_, hw4⟩
+        rw [hb4, hb3, hb2, hb1, h13]; apply Array.ext'; simp [crDbl]
       · simp only [Bool.not_true, Bool.false_eq_true, if_false]
-        exact ⟨by rw [hb1]; simp, hw1⟩
-    obtain ⟨w2, e2, hb2, hw2⟩ := hline
-    obtain ⟨hb3, hw3⟩ := ws_newline hw2
+        obtain ⟨hb4, hw4⟩ := ws_newline hw1
+        exact ⟨by rw [hb4, hb1]; apply Array.ext'; simp, hw4⟩
+    obtain ⟨w2, e2, hb3, hw3⟩ := hline
     simp only [serComment, e2]
     cases ls with
     | nil =>
       simp only [serComment, commentText]
       refine ⟨?_, hw3⟩
-      rw [hb3, hb2]; apply Array.ext'; simp
+      rw [hb3]
     | cons l2 ls2 =>
       obtain ⟨hb4, hw4⟩ := ih (fun x hx => hc x (List.mem_cons_of_mem _ hx)) w2.newline true hw3 (by simp)
       refine ⟨?_, hw4⟩
-      rw [hb4, hb3, hb2]; apply Array.ext'; simp [commentText]
+      rw [hb4, hb3]; apply Array.ext'; simp [commentText]
 
 theorem serAttributesGo_text (as : List (Attribute Bytes)) (hv : ∀ a ∈ as, rtAttr a = true) :
     ∀ w : Writer, WS w 1 false →
